@@ -166,6 +166,14 @@ func collectFunctionContracts(pass *analysishelper.EnhancedPass) (Map, error) {
 				continue
 			}
 
+			// Explicit nilability annotations on the function take precedence over an inferred
+			// contract: the call-site sites that a contract introduces are not connected to the
+			// annotated declaration sites, so with a contract a `nonnil(x)` parameter would accept
+			// nil and a `nonnil(result 0)` result could return it unnoticed.
+			if hasNilabilityAnnotation(funcDecl.Doc) {
+				continue
+			}
+
 			// If we reach here, it means that there are no handwritten contracts for this
 			// function. We need to infer contracts for this function.
 			if funcDecl.Type.Params.NumFields() != 1 ||
